@@ -38,3 +38,11 @@ package store
 // precondition of totalBits, checked at its call sites here
 //@ func (*SMT).VerifyProof
 //@   ensures[minlen] result0 ==> len(proof) >= 2
+
+// ---- C10: reads as of a version ---------------------------------------------------------------------------
+// the on-disk read filter for versions [low, high] admits EVERY version in that window (a block whose
+// only version equals the reader's version must not be skipped) and nothing outside it
+//@ func newTargetWindowFilter
+//@   requires[nowrap] high < MaxUint64
+//@   ensures[complete] forall v int :: low <= v && v <= high ==> filterAdmits(result, v)
+//@   ensures[tight] forall v int :: v < low || v > high ==> !filterAdmits(result, v)
